@@ -195,7 +195,7 @@ def inline_new_helpers(j):
     info['split_structs'] = {}
     if new_structs:
         for f in j['fns']:
-            n = split_structs(f, new_structs)
+            n = split_structs(f, new_structs, {g['path']: g for g in j['fns'] if g['label'] == 'fn'})
             if n:
                 info['split_structs'][f['path']] = n
     for f in j['fns']:
@@ -277,7 +277,151 @@ def _base_ty(ty):
     return t.split('<', 1)[0], ref
 
 
-def split_structs(f, new_structs):
+def _closure_prefix(cb):
+    """projection prefix that reaches the closure's captured variables from local 1 (the environment is passed by reference for
+    Fn / FnMut closures and by value for FnOnce)"""
+    ty = cb['locals'][1]['ty'] if len(cb['locals']) > 1 else ''
+    return [{'k': 'deref'}] if ty.startswith('&') else []
+
+
+def _closure_upvar_analysis(cb, j, struct_path):
+    """how closure body cb uses captured variable j (a reference to a value of the new struct type): returns the set of local
+    reference aliases if every use is an alias definition or a field-by-field access, else None"""
+    pre = _closure_prefix(cb)
+    k0 = len(pre)
+    refs = {}
+    for l in cb['locals']:
+        base, ref = _base_ty(l['ty'])
+        if base == struct_path and ref and l['i'] > 1:
+            refs[l['i']] = None
+    alias = {}
+    ok = [True]
+
+    def is_up(pl):
+        pr = pl['p']
+        return pl['l'] == 1 and len(pr) > k0 and [e['k'] for e in pr[:k0]] == [e['k'] for e in pre] and pr[k0]['k'] == 'field' and pr[k0].get('i') == j
+
+    def scan_place(pl, alias_def=False):
+        pr = pl['p']
+        if is_up(pl):
+            rest = pr[k0 + 1:]
+            if not rest:
+                if not alias_def:
+                    ok[0] = False
+            elif len(rest) >= 2 and rest[0]['k'] == 'deref' and rest[1]['k'] == 'field':
+                pass
+            elif len(rest) == 1 and rest[0]['k'] == 'deref' and alias_def:
+                pass
+            else:
+                ok[0] = False
+        elif pl['l'] in refs:
+            if not pr:
+                if not alias_def:
+                    ok[0] = False
+            elif len(pr) >= 2 and pr[0]['k'] == 'deref' and pr[1]['k'] == 'field':
+                pass
+            elif len(pr) == 1 and pr[0]['k'] == 'deref' and alias_def:
+                pass
+            else:
+                ok[0] = False
+
+    def scan(x):
+        if isinstance(x, dict):
+            if 'l' in x and 'p' in x and isinstance(x['p'], list):
+                scan_place(x)
+                return
+            for v in x.values():
+                scan(v)
+        elif isinstance(x, list):
+            for v in x:
+                scan(v)
+    for b in cb['blocks']:
+        for s in b['stmts']:
+            if s['k'] in ('live', 'dead'):
+                continue
+            if s['k'] == 'assign' and not s['place']['p'] and s['place']['l'] in refs:
+                rv = s['rv']
+                src = rv.get('place') if rv['k'] in ('ref', 'copyforderef') else (rv.get('op') or {}).get('place') if rv['k'] == 'use' and (rv.get('op') or {}).get('k') in ('copy', 'move') else None
+                if src is None:
+                    ok[0] = False
+                    continue
+                if is_up(src) or src['l'] in refs:
+                    scan_place(src, alias_def=True)
+                    alias[s['place']['l']] = True
+                    continue
+                ok[0] = False
+                continue
+            scan(s)
+        scan(b['term'])
+    # every reference local of the struct type must be one of the aliases
+    if not ok[0] or any(r not in alias for r in refs):
+        return None
+    return set(alias)
+
+
+def _split_closure_upvar(cb, j, nf, field_tys):
+    """replace captured variable j (a reference to the bundle) by one captured reference per field; returns {field: upvar index}"""
+    marker = cb.setdefault('split_upvars', {})
+    if str(j) in marker:
+        return marker[str(j)]
+    pre = _closure_prefix(cb)
+    k0 = len(pre)
+    nup = len(cb.get('upvars') or [])
+    umap = {0: j}
+    for i in range(1, nf):
+        umap[i] = nup + i - 1
+        cb.setdefault('upvars', []).append({'name': 'split#%d.%d' % (j, i)})
+    aliases = _closure_upvar_analysis(cb, j, None) if False else None
+    refs = set()
+    for b in cb['blocks']:
+        for s in b['stmts']:
+            if s['k'] == 'assign' and not s['place']['p']:
+                rv = s['rv']
+                src = rv.get('place') if rv['k'] in ('ref', 'copyforderef') else (rv.get('op') or {}).get('place') if rv['k'] == 'use' and (rv.get('op') or {}).get('k') in ('copy', 'move') else None
+                if src is None:
+                    continue
+                kinds = [e['k'] for e in src['p']]
+                whole_up = src['l'] == 1 and len(src['p']) > k0 and src['p'][k0]['k'] == 'field' and src['p'][k0].get('i') == j and kinds[k0 + 1:] in ([], ['deref'])
+                whole_ref = src['l'] in refs and kinds in ([], ['deref'])
+                if whole_up or whole_ref:
+                    refs.add(s['place']['l'])
+
+    def up_place(i, rest):
+        return {'l': 1, 'p': copy.deepcopy(pre) + [{'k': 'field', 'i': umap[i], 'name': '', 'ty': '&mut ' + field_tys[i]}, {'k': 'deref'}] + rest}
+
+    def fix(x):
+        if isinstance(x, dict):
+            if 'l' in x and 'p' in x and isinstance(x['p'], list):
+                pr = x['p']
+                if x['l'] == 1 and len(pr) >= k0 + 3 and pr[k0]['k'] == 'field' and pr[k0].get('i') == j and pr[k0 + 1]['k'] == 'deref' and pr[k0 + 2]['k'] == 'field':
+                    np_ = up_place(pr[k0 + 2]['i'], pr[k0 + 3:])
+                    x['p'] = np_['p']
+                elif x['l'] in refs and len(pr) >= 2 and pr[0]['k'] == 'deref' and pr[1]['k'] == 'field':
+                    np_ = up_place(pr[1]['i'], pr[2:])
+                    x['l'] = 1
+                    x['p'] = np_['p']
+                return
+            for v in x.values():
+                fix(v)
+        elif isinstance(x, list):
+            for v in x:
+                fix(v)
+    for b in cb['blocks']:
+        keep = []
+        for s in b['stmts']:
+            if s['k'] in ('live', 'dead') and s['l'] in refs:
+                continue
+            if s['k'] == 'assign' and not s['place']['p'] and s['place']['l'] in refs:
+                continue
+            fix(s)
+            keep.append(s)
+        b['stmts'] = keep
+        fix(b['term'])
+    marker[str(j)] = umap
+    return umap
+
+
+def split_structs(f, new_structs, fns=None):
     """replace locals of a new struct type by one local per field when the struct is only built, moved whole between such locals,
     borrowed into local reference aliases and accessed field by field (what a `State { .. }` bundle extracted from a long function
     looks like after its helper functions have been spliced back).  Returns the number of struct locals split."""
@@ -290,6 +434,7 @@ def split_structs(f, new_structs):
     if not struct_l:
         return 0
     bad = set()          # locals that cannot be split
+    captures = []        # (closure aggregate statement, captured-variable index, captured ref local, closure body)
     alias = {}           # ref local -> struct local (or another ref local, resolved later)
     union = {}           # struct local -> representative (moved-between groups must be split together)
 
@@ -368,6 +513,17 @@ def split_structs(f, new_structs):
                     alias[dl] = src
                 continue
             scan_place(pl)
+            if rv['k'] == 'aggregate' and rv['kind'].get('a') == 'closure' and fns is not None:
+                # a closure that captures a reference to the bundle and uses it only through aliases and field accesses (its own calls
+                # of new helper methods have been spliced in): the capture becomes one captured reference per field
+                cb = fns.get(rv['kind'].get('path'))
+                for j_, o in enumerate(rv['ops']):
+                    if o.get('k') in ('move', 'copy') and not o['place']['p'] and o['place']['l'] in ref_l and cb is not None \
+                            and _closure_upvar_analysis(cb, j_, ref_l[o['place']['l']]) is not None:
+                        captures.append((s, j_, o['place']['l'], cb))
+                    else:
+                        scan_generic(o)
+                continue
             scan_generic(rv)
         t = b['term']
         if t['k'] == 'drop' and not t['place']['p'] and t['place']['l'] in struct_l:
@@ -488,6 +644,15 @@ def split_structs(f, new_structs):
             pass
         return True
 
+    cap_stmts = {}
+    for (st, j_, r_, cb) in captures:
+        if r_ not in good_refs:
+            continue
+        sl = good_refs[r_]
+        flds = new_structs[struct_l[sl]]['variants'][0]['fields']
+        umap = _split_closure_upvar(cb, j_, len(flds), [fd['ty'] for fd in flds])
+        cap_stmts.setdefault(id(st), []).append((j_, sl, len(flds), umap))
+
     nblocks = len(f['blocks'])
     extra = []
     for b in f['blocks']:
@@ -520,6 +685,19 @@ def split_structs(f, new_structs):
                 continue
             if dl in good_refs:
                 continue
+            if id(s) in cap_stmts:
+                for (j_, sl, nf, umap) in cap_stmts[id(s)]:
+                    ops = s['rv']['ops']
+                    need = max(umap.values()) + 1
+                    while len(ops) < need:
+                        ops.append(None)
+                    for i in range(nf):
+                        n = len(locals_)
+                        fty = locals_[fl[(sl, i)]]['ty']
+                        locals_.append({'i': n, 'ty': '&mut ' + fty, 'mut': True, 'line': s.get('line', 0)})
+                        out.append({'k': 'assign', 'place': {'l': n, 'p': [], 'ty': '&mut ' + fty},
+                                    'rv': {'k': 'ref', 'mut': True, 'place': {'l': fl[(sl, i)], 'p': [], 'ty': fty}}, 'line': s.get('line', 0)})
+                        ops[umap[i]] = {'k': 'move', 'place': {'l': n, 'p': [], 'ty': '&mut ' + fty}}
             fix_generic(s)
             out.append(s)
         b['stmts'] = out
@@ -620,7 +798,8 @@ def thread_variants(f):
                 if t['args'][0]['place']['ty'].startswith('std::option::Option'):
                     nf = ('v', dl, 1 - fact[2])   # Option: None = 0 -> Break (1), Some = 1 -> Continue (0)
             elif decl.endswith('from_residual') and dl is not None and dl in tracked:
-                nf = ('v', dl, 1)
+                # the failure variant of the destination type: Err (1) for Result, None (0) for Option
+                nf = ('v', dl, 0 if t['dest'].get('ty', '').startswith('std::option::Option') else 1)
             elif fact and dl == fact[1]:
                 nf = None
             if t.get('target') is not None:
